@@ -456,7 +456,7 @@ func classifyHandleMismatch(ops []*OpRec, h string) (key, why string) {
 		case op.Step.Kind == KAutoAssign && delta > acq-freed:
 			key = "handle-record-overcounts-after-partial-block-autoassign"
 			why += fmt.Sprintf(" (asked for %d v4 + %d v6, got %v)", op.Step.Num4, op.Step.Num6, op.IPs)
-		case op.Step.Kind == KReleaseIPs && len(op.Step.Rel) > 2 && delta > acq-freed:
+		case op.Step.Kind == KReleaseIPs && len(op.Step.Rel) > 2 && freed > 0 && delta > acq-freed: // >2 addresses => pre-fetched handles
 			key = "handle-record-not-decremented-by-release-with-prefetched-handles"
 		}
 		return key, why
